@@ -63,6 +63,9 @@ impl UCICommand {
 
         let value_idx = args.iter().position(|&arg| arg == "value");
         let value = match value_idx {
+            Some(idx) if idx < name_idx => {
+                return Err("The value must follow the name in setoption!".to_string())
+            }
             Some(idx) if args.len() > idx => Some(args[idx + 1..].join(" ").to_lowercase()),
             Some(_) => {
                 return Err(
@@ -79,7 +82,9 @@ impl UCICommand {
             )
             .to_lowercase();
 
-        assert!(!name.is_empty(), "Name should not be empty!");
+        if name.is_empty() {
+            return Err("No name provided to setoption!".to_string());
+        }
 
         Ok(Self::SetOption { name, value })
     }
@@ -129,7 +134,9 @@ impl UCICommand {
                 "wtime" => {
                     idx += 1;
                     limits = limits.white_time(Some(
-                        args[idx]
+                        args
+                            .get(idx)
+                            .ok_or("Missing value in go command!")?
                             .parse()
                             .map_err(|e| format!("Failed to parse wtime value: {e}"))?,
                     ));
@@ -137,7 +144,9 @@ impl UCICommand {
                 "btime" => {
                     idx += 1;
                     limits = limits.black_time(Some(
-                        args[idx]
+                        args
+                            .get(idx)
+                            .ok_or("Missing value in go command!")?
                             .parse()
                             .map_err(|e| format!("Failed to parse btime value: {e}"))?,
                     ));
@@ -145,7 +154,9 @@ impl UCICommand {
                 "winc" => {
                     idx += 1;
                     limits = limits.white_increment(Some(
-                        args[idx]
+                        args
+                            .get(idx)
+                            .ok_or("Missing value in go command!")?
                             .parse()
                             .map_err(|e| format!("Failed to parse winc value: {e}"))?,
                     ));
@@ -153,7 +164,9 @@ impl UCICommand {
                 "binc" => {
                     idx += 1;
                     limits = limits.black_increment(Some(
-                        args[idx]
+                        args
+                            .get(idx)
+                            .ok_or("Missing value in go command!")?
                             .parse()
                             .map_err(|e| format!("Failed to parse binc value: {e}"))?,
                     ));
@@ -162,7 +175,9 @@ impl UCICommand {
                 "depth" => {
                     idx += 1;
                     limits = limits.depth(Some(
-                        args[idx]
+                        args
+                            .get(idx)
+                            .ok_or("Missing value in go command!")?
                             .parse()
                             .map_err(|e| format!("Failed to parse depth value: {e}"))?,
                     ));
@@ -170,7 +185,9 @@ impl UCICommand {
                 "nodes" => {
                     idx += 1;
                     limits = limits.nodes(Some(
-                        args[idx]
+                        args
+                            .get(idx)
+                            .ok_or("Missing value in go command!")?
                             .parse()
                             .map_err(|e| format!("Failed to parse nodes value: {e}"))?,
                     ));
@@ -179,7 +196,9 @@ impl UCICommand {
                 "movetime" => {
                     idx += 1;
                     limits = limits.movetime(Some(
-                        args[idx]
+                        args
+                            .get(idx)
+                            .ok_or("Missing value in go command!")?
                             .parse()
                             .map_err(|e| format!("Failed to parse movetime value: {e}"))?,
                     ));
